@@ -232,7 +232,7 @@ Definition merge_streams (estr : nat) (a : merge_args) (tty : bool) (srcs : list
 
 Lemma merge_modes_run : forall merge2 flow jview estr a tty srcs stdin_src nerr vl n',
   ma_mode a <> CondenseAll ->
-  merge_validate a (List.length srcs) (map s_name srcs) tty = (nerr, vl, n') -> nerr = 0 ->
+  merge_validate a (List.length srcs) (map s_name srcs) tty = (nerr, vl, n') -> nerr = 0 -> ma_config_err a = None ->
   Forall (src_loads estr) srcs ->
   (stdin_waits_m a tty srcs = true -> src_loads estr stdin_src) ->
   match lib_merge_streams merge2 (ma_mode a) [] (merge_streams estr a tty srcs stdin_src) with
@@ -246,8 +246,8 @@ Lemma merge_modes_run : forall merge2 flow jview estr a tty srcs stdin_src nerr 
   | OutOfFuel => False
   end.
 Proof.
-  intros merge2 flow jview estr a tty srcs stdin_src nerr vl n' Mode V Z F FS.
-  unfold cli_merge_main. rewrite V. subst nerr. simpl negb. cbv iota.
+  intros merge2 flow jview estr a tty srcs stdin_src nerr vl n' Mode V Z CE F FS.
+  unfold cli_merge_main. rewrite V. subst nerr. simpl negb. cbv iota. rewrite CE.
   unfold merge_streams. rewrite lib_merge_streams_app.
   pose proof (merge_loop_modes merge2 estr (ma_mode a) srcs [] 0 false 0 F) as L. unfold loop_like in L.
   assert (NoSingle : forall x y, (Nat.eqb x 0 && Nat.eqb y 0 &&
@@ -283,7 +283,7 @@ Qed.
    output format (the first one decides the format and is prepared twice) *)
 Lemma merge_modes_output : forall merge2 flow jview estr a tty srcs stdin_src nerr vl n',
   ma_mode a <> CondenseAll ->
-  merge_validate a (List.length srcs) (map s_name srcs) tty = (nerr, vl, n') -> nerr = 0 ->
+  merge_validate a (List.length srcs) (map s_name srcs) tty = (nerr, vl, n') -> nerr = 0 -> ma_config_err a = None ->
   Forall (src_loads estr) srcs ->
   (stdin_waits_m a tty srcs = true -> src_loads estr stdin_src) ->
   ma_backup a && negb (ma_overwrite_exists a) = false ->
@@ -294,8 +294,8 @@ Lemma merge_modes_output : forall merge2 flow jview estr a tty srcs stdin_src ne
       [(doc_is_json flow a d,
         prepared flow jview a (prepared flow jview a d) :: map (prepared flow jview a) rest)].
 Proof.
-  intros merge2 flow jview estr a tty srcs stdin_src nerr vl n' Mode V Z F FS BK d rest L.
-  pose proof (merge_modes_run merge2 flow jview estr a tty srcs stdin_src nerr vl n' Mode V Z F FS) as R.
+  intros merge2 flow jview estr a tty srcs stdin_src nerr vl n' Mode V Z CE F FS BK d rest L.
+  pose proof (merge_modes_run merge2 flow jview estr a tty srcs stdin_src nerr vl n' Mode V Z CE F FS) as R.
   rewrite L in R. destruct R as (nh & E). rewrite E. clear E.
   pose proof (merge_validate_no_dump _ _ _ _ _ _ _ V) as DV.
   destruct (merge_write_delivers flow jview a n' (nonempty (ma_overwrite a) || nonempty (ma_output a)) (d :: rest))
@@ -310,7 +310,7 @@ Qed.
    merge_fail_delivers_nothing) *)
 Lemma merge_modes_error : forall merge2 flow jview estr a tty srcs stdin_src nerr vl n',
   ma_mode a <> CondenseAll ->
-  merge_validate a (List.length srcs) (map s_name srcs) tty = (nerr, vl, n') -> nerr = 0 ->
+  merge_validate a (List.length srcs) (map s_name srcs) tty = (nerr, vl, n') -> nerr = 0 -> ma_config_err a = None ->
   Forall (src_loads estr) srcs ->
   (stdin_waits_m a tty srcs = true -> src_loads estr stdin_src) ->
   forall out n,
@@ -318,8 +318,8 @@ Lemma merge_modes_error : forall merge2 flow jview estr a tty srcs stdin_src ner
     r_status (cli_merge_main merge2 flow jview estr a tty srcs stdin_src) = Exit (S n) /\
     delivered (cli_merge_main merge2 flow jview estr a tty srcs stdin_src) = [].
 Proof.
-  intros merge2 flow jview estr a tty srcs stdin_src nerr vl n' Mode V Z F FS out n L.
-  pose proof (merge_modes_run merge2 flow jview estr a tty srcs stdin_src nerr vl n' Mode V Z F FS) as R.
+  intros merge2 flow jview estr a tty srcs stdin_src nerr vl n' Mode V Z CE F FS out n L.
+  pose proof (merge_modes_run merge2 flow jview estr a tty srcs stdin_src nerr vl n' Mode V Z CE F FS) as R.
   rewrite L in R. split; [exact R|].
   apply merge_fail_delivers_nothing. rewrite R. discriminate.
 Qed.
@@ -363,7 +363,7 @@ Qed.
 Lemma merge_across_output : forall merge2 flow jview estr a tty srcs stdin_src nerr vl n',
   merges_clean merge2 ->
   ma_mode a = MergeAcross ->
-  merge_validate a (List.length srcs) (map s_name srcs) tty = (nerr, vl, n') -> nerr = 0 ->
+  merge_validate a (List.length srcs) (map s_name srcs) tty = (nerr, vl, n') -> nerr = 0 -> ma_config_err a = None ->
   Forall (src_loads estr) srcs ->
   (stdin_waits_m a tty srcs = true -> src_loads estr stdin_src) ->
   ma_backup a && negb (ma_overwrite_exists a) = false ->
@@ -374,7 +374,7 @@ Lemma merge_across_output : forall merge2 flow jview estr a tty srcs stdin_src n
       [(doc_is_json flow a d,
         prepared flow jview a (prepared flow jview a d) :: map (prepared flow jview a) rest)].
 Proof.
-  intros merge2 flow jview estr a tty srcs stdin_src nerr vl n' C Mode V Z F FS BK d rest S.
+  intros merge2 flow jview estr a tty srcs stdin_src nerr vl n' C Mode V Z CE F FS BK d rest S.
   apply (merge_modes_output merge2 flow jview estr a tty srcs stdin_src nerr vl n'); auto.
   - rewrite Mode. discriminate.
   - rewrite Mode, across_streams_run by exact C. unfold across_streams in S. rewrite S. reflexivity.
@@ -383,7 +383,7 @@ Qed.
 Lemma merge_matrix_output : forall merge2 flow jview estr a tty srcs stdin_src nerr vl n',
   merges_clean merge2 ->
   ma_mode a = MatrixMerge ->
-  merge_validate a (List.length srcs) (map s_name srcs) tty = (nerr, vl, n') -> nerr = 0 ->
+  merge_validate a (List.length srcs) (map s_name srcs) tty = (nerr, vl, n') -> nerr = 0 -> ma_config_err a = None ->
   Forall (src_loads estr) srcs ->
   (stdin_waits_m a tty srcs = true -> src_loads estr stdin_src) ->
   ma_backup a && negb (ma_overwrite_exists a) = false ->
@@ -394,7 +394,7 @@ Lemma merge_matrix_output : forall merge2 flow jview estr a tty srcs stdin_src n
       [(doc_is_json flow a d,
         prepared flow jview a (prepared flow jview a d) :: map (prepared flow jview a) rest)].
 Proof.
-  intros merge2 flow jview estr a tty srcs stdin_src nerr vl n' C Mode V Z F FS BK d rest S.
+  intros merge2 flow jview estr a tty srcs stdin_src nerr vl n' C Mode V Z CE F FS BK d rest S.
   apply (merge_modes_output merge2 flow jview estr a tty srcs stdin_src nerr vl n'); auto.
   - rewrite Mode. discriminate.
   - rewrite Mode, matrix_streams_run by exact C. unfold matrix_streams in S. rewrite S. reflexivity.
